@@ -99,7 +99,8 @@ class C17(Prop):
                                     yield self._num(r, et, [(shape, fill(et, n), la), ([wl], fill(et, wl, 2), lw)],
                                                     "%d %s" % (axis, enc_vals(et, [1.0])[0]), F_AXIS_DDOF, shape, [wl], axis)
                 # quantiles
-                qsets = [[0.5], [0.0, 1.0], [-0.1], [1.5], [0.5, 2.0, -1.0], [0.2, -0.5, 3.0], [], [float("inf")], [-0.0]]
+                qsets = [[0.5], [0.0, 1.0], [-0.1], [1.5], [0.5, 2.0, -1.0], [0.2, -0.5, 3.0], [], [float("inf")], [-0.0],
+                         [0.5, 1.25, 0.75, -2.0, 0.1, 9.0]]
                 for et in ("i64", "n64"):
                     vals = fill("f64" if et == "n64" else "i32", n)
                     for axis in range(len(shape)):
@@ -138,7 +139,9 @@ class C17(Prop):
         return c
 
     def _quant(self, routine, et, shape, axis, vals, qs, lay):
-        c = mk_q_case(routine, et, 1, shape, axis, vals, qs, lay, ("P", 0))
+        # the q array itself comes in four memory layouts (the first offender is the first in LOGICAL order)
+        self._qk = getattr(self, "_qk", 0) + 1
+        c = mk_q_case(routine, et, 1, shape, axis, vals, qs, lay, ("P", 0), il=self._qk % 4)
         c.fam, c.s1, c.s2, c.ddof_ok = F_QUANT, list(shape), [], True
         return c
 
